@@ -134,10 +134,11 @@ Print Assumptions C20_K9_ref_names_key.
 (* a PASSED context: explicit ref_prefix argument (stripped) > the context's own ref_prefix (as is) >
    pointer of the effective dialect (dialect argument, else the context's); same order for all_refs;
    the definitions dict of the passed context is the one the build writes into *)
-Theorem C20_K9_passed_context : forall cD (car: option bool) cq defs pl wd (ar: option bool) D p,
+Theorem C20_K9_passed_context : forall cD (car: option bool) cq defs pl wd (ar: option bool) D p pl',
   In cD [DRAFT_2020_12; OPEN_API_3_1] -> In D dialects ->
   let c0 := KNs [("dialect", cD); ("definitions", defs); ("all_refs", opt_bool car); ("ref_prefix", opt_str cq); ("plugins", pl)] in
-  exists c, build_ctx c0 wd (opt_bool ar) D (opt_str p) (KTuple []) = Ok c
+  exists c, build_ctx c0 wd (opt_bool ar) D (opt_str p) pl' = Ok c
+    /\ k_getattr2 c (KStr "plugins") = Ok (if k_truthy pl' then pl' else pl)
     /\ k_getattr2 c (KStr "ref_prefix") =
        Ok (KStr (match p with
                  | Some p' => rstrip_slash p'
